@@ -469,6 +469,16 @@ class Effects:
                         cands = [c for c in total if c.params and c.params[0] in self._summary_for_call(c, st)]
                         if cands and len(cands) == len(total) and fn.attr not in COPY_METHODS | VIEW_METHODS:
                             effect(fn.value, "callee", st, f".{fn.attr}() mutates its receiver in every repository class that defines it")
+                        # arguments of a method that cannot be resolved (the receiver is an attribute holding some object): if the classes that
+                        # define a method of this name all live in one package and one of them modifies the parameter the argument is bound to,
+                        # the call may modify the argument (dynamic dispatch over a small family, e.g. the balance classes behind apply_balance)
+                        if total and len(total) <= 8 and len({c.module.name.rsplit(".", 1)[0] for c in total}) == 1 and not isinstance(self.model.resolve_call(st, f), (Func, Cls)):
+                            for c in total:
+                                summ_c = self.mut.get(c, set())
+                                cparams = c.params[1:] if c.cls is not None else c.params
+                                for i_, a in enumerate(st.args):
+                                    if i_ < len(cparams) and cparams[i_] in summ_c:
+                                        effect(a, "callee", st, f"{c.short} (one of the {len(total)} definitions of .{fn.attr}) mutates its parameter `{cparams[i_]}`")
         # return aliasing
         ret = set()
         for st in ast.walk(node):
